@@ -140,4 +140,511 @@ def stepCount (dt : Option Rat) (t T : Rat) : Nat :=
   | none => 1
   | some d => if d ≤ 0 then 0 else ((T - t) / d).ceil.toNat
 
+
+/-! ### Driver programs
+
+`Gen.Py.driverPrograms` (Generated/Coeffs.lean) are the time loops of `one_pop … five_pops` and `_one/_two/_three_pops_const_params`
+translated statement by statement, call arguments as written.  `Prog.resolve` binds every call against the callee's SIGNATURE
+(`_compute_dt`, `_inject_mutations_<d>D`, the Cython wrapper of each kernel, the C function behind it and the role each C
+parameter plays in the kernel body — all generated name tables), normalises what does not change the schedule (`min`/`+` are
+commutative, consecutive parameter evaluations commute, Demes bookkeeping is dropped) and yields a program over roles.
+`Prog.exec`/`Prog.runLoop` is the semantics of that language; `Prog.expected d const` is the schedule the model stands for.
+(Props/C02: the resolved generated programs ARE the expected ones and those run as `integrateFn`/`integrateConst` of `sweep`.) -/
+namespace Prog
+open Gen.Py
+
+def allDistinct : List String → Bool
+  | [] => true
+  | x :: xs => !(xs.contains x) && allDistinct xs
+
+/-- Python's argument binding: positionals in order, then keywords by name.  `none` if a positional follows a keyword, there are
+    too many positionals, a keyword is not a parameter or a parameter is bound twice. -/
+def bindArgs (sig : List String) (args : List CallArg) : Option (List (String × CallArg)) :=
+  let pos := args.takeWhile (·.kw.isNone)
+  let kws := args.dropWhile (·.kw.isNone)
+  let b := List.zip sig pos ++ kws.filterMap fun a => a.kw.map fun k => (k, a)
+  if pos.length ≤ sig.length && kws.all (·.kw.isSome) && allDistinct (b.map Prod.fst) && (b.map Prod.fst).all sig.contains
+  then some b else none
+
+def scalarOf (a : CallArg) : Option Arg :=
+  if a.isList then none else match a.vals with
+    | [x] => some x
+    | _ => none
+
+def bound (b : List (String × CallArg)) (name : String) : Option Arg := (b.lookup name).bind scalarOf
+
+structure DtCallR where
+  dx : Arg
+  nu : Arg
+  ms : List Arg
+  gamma : Arg
+  h : Arg
+deriving DecidableEq, Repr
+
+structure InjectR where
+  dim : Nat
+  phi : Arg
+  dt : Arg
+  grids : List Arg
+  theta0 : Arg
+  frozen : List Arg
+  nomut : List Arg
+deriving DecidableEq, Repr
+
+structure KernelR where
+  guard : Option Arg
+  d : Nat
+  ax : Nat
+  pre : Bool                    -- pre-computed coefficient kernel (constant-parameter drivers)
+  phi : Arg
+  grids : List Arg
+  nu : Arg
+  ms : List (Arg × Nat)         -- (rate, coordinate axis it is paired with), in the order of the coordinate axes
+  gamma : Arg
+  h : Arg
+  beta : Option Arg
+  dt : Arg
+  delj : Option Arg
+deriving DecidableEq, Repr
+
+inductive StmtR where
+  | computeDt (calls : List DtCallR)
+  | capDt (args : List TExp)
+  | setNext (e : TExp)
+  | eval (p : Param) (t : TExp)
+  | check (what : String) (args : List Arg)
+  | inject (i : InjectR)
+  | kernel (k : KernelR)
+  | advance (e : TExp)
+  | bad (why : String)
+deriving DecidableEq, Repr
+
+structure ProgramR where
+  fn : String
+  d : Nat
+  const : Bool
+  wraps : List Param
+  prologue : List StmtR
+  cond : LoopCond
+  body : List StmtR
+  returnsPhi : Bool
+deriving DecidableEq, Repr
+
+/-! #### normalisation -/
+def paramRank : Param → Nat
+  | .nu k => k
+  | .gamma k => 100 + k
+  | .h k => 200 + k
+  | .m k l => 300 + 10 * k + l
+  | .theta0 => 1000
+  | .beta => 1001
+
+def argRank : Arg → Nat
+  | .tEnd => 0
+  | .slot p => 1 + paramRank p
+  | .raw p => 1 + paramRank p
+  | _ => 5000
+
+def insertBy {α : Type} (r : α → Nat) (x : α) : List α → List α
+  | [] => [x]
+  | y :: ys => if r x < r y then x :: y :: ys else y :: insertBy r x ys
+
+/-- stable insertion sort by rank -/
+def sortBy {α : Type} (r : α → Nat) (l : List α) : List α := l.foldr (insertBy r) []
+
+/-- `dt + t` → `t + dt` -/
+def normT : TExp → TExp
+  | .add (.dtv v) (.tv w) => .add (.tv w) (.dtv v)
+  | .add (.dtv v) .tEnd => .add .tEnd (.dtv v)
+  | e => e
+
+def texpRank : TExp → Nat
+  | .dtv _ => 0
+  | _ => 1
+
+def normCond (c : LoopCond) : LoopCond :=
+  match c.op with
+  | .gt => ⟨c.rhs, .lt, c.lhs⟩
+  | .ge => ⟨c.rhs, .le, c.lhs⟩
+  | _ => c
+
+def evalRank : StmtR → Nat
+  | .eval p _ => paramRank p
+  | _ => 0
+
+/-- consecutive evaluations of parameter functions commute: put each run in canonical order -/
+def sortEvalRuns : List StmtR → List StmtR → List StmtR
+  | run, [] => sortBy evalRank run.reverse
+  | run, (.eval p t) :: rest => sortEvalRuns ((.eval p t) :: run) rest
+  | run, s :: rest => sortBy evalRank run.reverse ++ s :: sortEvalRuns [] rest
+
+/-! #### binding against the signatures -/
+def resolveDt (args : List CallArg) : StmtR ⊕ DtCallR :=
+  match bindArgs computeDtSig args with
+  | none => .inl (.bad "_compute_dt: binding")
+  | some b =>
+    match bound b "dx", bound b "nu", b.lookup "ms", bound b "gamma", bound b "h" with
+    | some dx, some nu, some ms, some g, some h =>
+        if ms.isList && b.length == computeDtSig.length then .inr ⟨dx, nu, ms.vals, g, h⟩ else .inl (.bad "_compute_dt: ms")
+    | _, _, _, _, _ => .inl (.bad "_compute_dt: argument missing")
+
+def resolveInject (dim : Nat) (args : List CallArg) : StmtR :=
+  match injectSigs.lookup dim with
+  | none => .bad "inject: unknown callee"
+  | some sig =>
+    match bindArgs (sig.map Prod.fst) args with
+    | none => .bad "inject: binding"
+    | some b =>
+      let by_ (m : Arg) : Option Arg := (sig.find? (·.2 == m)).bind fun e => bound b e.1
+      let many (p : Arg → Bool) : Option (List Arg) := (sig.filter (fun e => p e.2)).mapM fun e => bound b e.1
+      let isFrozen : Arg → Bool := fun a => match a with | .flag (.frozen _) => true | _ => false
+      let isNomut : Arg → Bool := fun a => match a with | .flag (.nomut _) => true | _ => false
+      -- flags in the order of the population they belong to (the callee's names decide, not the positions)
+      let flags (mk : Nat → Arg) (p : Arg → Bool) : Option (List Arg) :=
+        if (sig.filter (fun e => p e.2)).isEmpty then some []
+        else (List.range dim).mapM fun k => by_ (mk k)
+      match by_ .phi, by_ (.dtv .dt), many (· == .grid), by_ (.slot .theta0), flags (fun k => .flag (.frozen k)) isFrozen,
+            flags (fun k => .flag (.nomut k)) isNomut with
+      | some ph, some dt, some gs, some th, some fr, some nm =>
+          if b.length == sig.length then .inject ⟨dim, ph, dt, gs, th, fr, nm⟩ else .bad "inject: argument missing"
+      | _, _, _, _, _, _ => .bad "inject: argument missing"
+
+/-- the driver's argument that reaches C parameter `c` of kernel `K`: through the wrapper's parameter it is passed from -/
+def reach (K : C.KernelSig) (b : List (String × CallArg)) (c : String) : Option Arg :=
+  match K.cParams.idxOf? c with
+  | none => none
+  | some i =>
+    match K.pyxCall[i]? with
+    | some (.param w) => bound b w
+    | some (.data w) => bound b w
+    | _ => none
+
+def dimsOk (K : C.KernelSig) : Bool :=
+  (List.zipIdx K.roleDims).all fun (c, i) =>
+    match K.cParams.idxOf? c with
+    | some j => K.pyxCall[j]? == some (.shape K.rolePhi i) || K.pyxCall[j]? == some (.size "a")
+    | none => false
+
+def resolveKernel (guard : Option Arg) (fn : String) (args : List CallArg) : StmtR :=
+  match C.kernelSigs.find? (·.name == fn) with
+  | none => .bad "kernel: unknown callee"
+  | some K =>
+    match bindArgs K.pyxParams args with
+    | none => .bad "kernel: binding"
+    | some b =>
+      if b.length != K.pyxParams.length then .bad "kernel: argument missing"
+      else if !(dimsOk K) || K.pyxReturns != K.rolePhi && !(K.name == "tridiag") then .bad "kernel: wrapper"
+      else if K.pre then
+        match reach K b K.rolePhi, K.roleCoef.mapM (reach K b), preParams.find? (fun e => e.1 == K.d && e.2.1 == K.ax) with
+        | some ph, some [a, bb, c], some (_, _, nu, ms, g, h, beta) =>
+            if K.name == "tridiag" then
+              match bb, ph with
+              | .bPlusInvDt ax v, .rhs v' =>
+                  if a == .coef 0 K.ax && ax == K.ax && c == .coef 2 K.ax && v == v' then
+                    .kernel ⟨guard, K.d, K.ax, true, .phi, [], nu, sortBy (·.2) ms, g, h, beta, .dtv v, none⟩
+                  else .bad "tridiag: coefficient arrays"
+              | _, _ => .bad "tridiag: coefficient arrays"
+            else
+              match reach K b K.roleDt with
+              | some dt =>
+                  if a == .coef 0 K.ax && bb == .coef 1 K.ax && c == .coef 2 K.ax then
+                    .kernel ⟨guard, K.d, K.ax, true, ph, [], nu, sortBy (·.2) ms, g, h, beta, dt, none⟩
+                  else .bad "precalc kernel: coefficient arrays"
+              | none => .bad "precalc kernel: dt"
+        | _, _, _ => .bad "precalc kernel: argument missing"
+      else
+        match reach K b K.rolePhi, K.roleGrids.mapM (reach K b), reach K b K.roleNu,
+              K.roleMig.mapM (fun e => (reach K b e.1).map fun a => (a, e.2)), reach K b K.roleGamma, reach K b K.roleH,
+              K.roleBeta.mapM (reach K b), reach K b K.roleDt, reach K b K.roleDelj with
+        | some ph, some gs, some nu, some ms, some g, some h, some beta, some dt, some dj =>
+            .kernel ⟨guard, K.d, K.ax, false, ph, gs, nu, sortBy (·.2) ms, g, h, beta, dt, some dj⟩
+        | _, _, _, _, _, _, _, _, _ => .bad "kernel: argument missing"
+
+def resolveStmts : List Stmt → List StmtR
+  | [] => []
+  | .log :: rest => resolveStmts rest
+  | .rhsDiv v :: .tridiag args :: rest =>
+      (match resolveKernel none "tridiag" args with
+       | .kernel k => if k.dt == .dtv v then .kernel k else .bad "tridiag: right-hand side"
+       | s => s) :: resolveStmts rest
+  | .rhsDiv _ :: rest => .bad "r = phi/dt not followed by the solve" :: resolveStmts rest
+  | .tridiag _ :: rest => .bad "solve without r = phi/dt" :: resolveStmts rest
+  | .computeDt calls :: rest =>
+      (let rs := calls.map resolveDt
+       match rs.find? (fun r => match r with | .inl _ => true | .inr _ => false) with
+       | some (.inl s) => s
+       | _ => .computeDt (rs.filterMap fun r => match r with | .inr c => some c | .inl _ => none)) :: resolveStmts rest
+  | .capDt args :: rest => .capDt (sortBy texpRank args) :: resolveStmts rest
+  | .setNext e :: rest => .setNext (normT e) :: resolveStmts rest
+  | .eval p t :: rest => .eval p t :: resolveStmts rest
+  | .check w args :: rest => .check w (sortBy argRank args) :: resolveStmts rest
+  | .inject dim args :: rest => resolveInject dim args :: resolveStmts rest
+  | .kernel g fn args :: rest => resolveKernel g fn args :: resolveStmts rest
+  | .advance e :: rest => .advance (normT e) :: resolveStmts rest
+
+def resolve (P : DriverProgram) : ProgramR :=
+  { fn := P.fn, d := P.d, const := P.const, wraps := sortBy paramRank P.wraps,
+    prologue := sortEvalRuns [] (resolveStmts P.prologue), cond := normCond P.cond,
+    body := sortEvalRuns [] (resolveStmts P.body), returnsPhi := P.returnsPhi }
+
+/-! #### the schedule the model stands for -/
+def others (d k : Nat) : List Nat := (List.range d).filter (· ≠ k)
+
+/-- every parameter of a d-population integration, canonical order -/
+def paramList (d : Nat) : List Param :=
+  (List.range d).map .nu ++ (List.range d).map .gamma ++ (List.range d).map .h
+    ++ (List.range d).flatMap (fun k => (others d k).map (.m k)) ++ [.theta0] ++ (if d = 1 then [.beta] else [])
+
+/-- …those the time step depends on (all but θ0) -/
+def dtParamList (d : Nat) : List Param :=
+  (List.range d).map .nu ++ (List.range d).map .gamma ++ (List.range d).map .h
+    ++ (List.range d).flatMap (fun k => (others d k).map (.m k)) ++ (if d = 1 then [.beta] else [])
+
+def expDtCall (d k : Nat) : DtCallR :=
+  { dx := .spacing, nu := .slot (.nu k), ms := if d = 1 then [.lit 0] else (others d k).map fun l => .slot (.m k l),
+    gamma := .slot (.gamma k), h := .slot (.h k) }
+
+def expInject (d : Nat) : InjectR :=
+  { dim := d, phi := .phi, dt := .dtv .thisDt, grids := List.replicate d .grid, theta0 := .slot .theta0,
+    frozen := if d = 1 then [] else (List.range d).map fun k => .flag (.frozen k),
+    nomut := if d = 2 then (List.range d).map fun k => .flag (.nomut k) else [] }
+
+def expKernel (d ax : Nat) (pre : Bool) : KernelR :=
+  { guard := if d = 1 then none else some (.flag (.frozen ax)), d := d, ax := ax, pre := pre, phi := .phi,
+    grids := if pre then [] else List.replicate d .grid,
+    nu := .slot (.nu ax), ms := (others d ax).map fun l => (.slot (.m ax l), l), gamma := .slot (.gamma ax), h := .slot (.h ax),
+    beta := if d = 1 then some (.slot .beta) else none, dt := .dtv .thisDt, delj := if pre then none else some .delj }
+
+def expChecks (d : Nat) : List StmtR :=
+  [.check "less" ([.tEnd] ++ (List.range d).map (fun k => .slot (.nu k))
+      ++ (List.range d).flatMap (fun k => (others d k).map fun l => .slot (.m k l)) ++ [.slot .theta0]),
+   .check "equal" ((List.range d).map fun k => .slot (.nu k))]
+
+def whileBelowT : LoopCond := ⟨.tv .cur, .lt, .tEnd⟩
+def capToEnd : StmtR := .capDt [.dtv .dt, .sub .tEnd (.tv .cur)]
+def dtFromSlots (d : Nat) : StmtR := .computeDt ((List.range d).map (expDtCall d))
+
+/-- time-dependent driver: `while current_t < T`: dt from the values in the slots; `this_dt = min(dt, T − current_t)`;
+    `next_t = current_t + this_dt`; EVERY parameter re-evaluated at `next_t`; guards; injection with `this_dt`; every axis in order,
+    guarded by its own `frozen` flag, with `this_dt` and the values just evaluated; `current_t = next_t`. -/
+def expectedFnBody (d : Nat) : List StmtR :=
+  [dtFromSlots d, capToEnd, .setNext (.add (.tv .cur) (.dtv .thisDt))]
+    ++ (paramList d).map (fun p => .eval p (.tv .next))
+    ++ expChecks d
+    ++ [.inject (expInject d)]
+    ++ (List.range d).map (fun ax => .kernel (expKernel d ax false))
+    ++ [.advance (.tv .next)]
+
+/-- constant-parameter driver: dt once before the loop; in the loop `this_dt = min(dt, T − current_t)`, injection, every axis,
+    `current_t += this_dt` -/
+def expectedConstBody (d : Nat) : List StmtR :=
+  [capToEnd, .inject (expInject d)] ++ (List.range d).map (fun ax => .kernel (expKernel d ax true))
+    ++ [.advance (.add (.tv .cur) (.dtv .thisDt))]
+
+def driverName (d : Nat) (const : Bool) : String :=
+  let base := ["one_pop", "two_pops", "three_pops", "four_pops", "five_pops"].getD (d - 1) ""
+  if const then "_" ++ base ++ "_const_params" else base
+
+def expected (d : Nat) (const : Bool) : ProgramR :=
+  if const then
+    { fn := driverName d true, d := d, const := true, wraps := [], prologue := expChecks d ++ [dtFromSlots d],
+      cond := whileBelowT, body := expectedConstBody d, returnsPhi := true }
+  else
+    { fn := driverName d false, d := d, const := false, wraps := paramList d,
+      prologue := (dtParamList d).map (fun p => .eval p (.tv .cur)), cond := whileBelowT, body := expectedFnBody d,
+      returnsPhi := true }
+
+/-- all ten: the five public drivers (4-D/5-D: constants become constant functions, the same loop), and the three
+    constant-parameter drivers -/
+def expectedAll : List ProgramR :=
+  (List.range 5).map (fun d => expected (d + 1) false) ++ (List.range 3).map (fun d => expected (d + 1) true)
+
+/-! #### semantics -/
+structure PSem (σ : Type) where
+  inject : Rat → Rat → List Bool → List Bool → σ → σ      -- dt θ0 frozen nomut
+  kernel : Nat → AxisParams → Rat → σ → σ                  -- axis, parameters, dt
+
+structure PEnv where
+  tf : Rat
+  T : Rat
+  t0 : Rat
+  pf : Param → Rat → Rat
+  frozen : Nat → Bool
+  nomut : Nat → Bool
+
+structure PSt (σ : Type) where
+  cur : Rat
+  next : Rat
+  dt : Option Rat            -- none = +∞ (`numpy.inf`)
+  thisDt : Rat
+  vals : Param → Rat
+  phi : σ
+
+def optAdd : Option Rat → Option Rat → Option Rat
+  | some x, some y => some (x + y)
+  | _, _ => none
+def optSub : Option Rat → Option Rat → Option Rat
+  | some x, some y => some (x - y)
+  | _, _ => none
+
+def evalT {σ : Type} (E : PEnv) (s : PSt σ) : TExp → Option Rat
+  | .tv .cur => some s.cur
+  | .tv .next => some s.next
+  | .tv .init => some E.t0
+  | .dtv .dt => s.dt
+  | .dtv .thisDt => some s.thisDt
+  | .tEnd => some E.T
+  | .add a b => optAdd (evalT E s a) (evalT E s b)
+  | .sub a b => optSub (evalT E s a) (evalT E s b)
+  | .other _ => some 0
+
+def evalArg {σ : Type} (E : PEnv) (s : PSt σ) : Arg → Rat
+  | .slot p => s.vals p
+  | .lit n => (n : Rat)
+  | .dtv v => (evalT E s (.dtv v)).getD 0
+  | .tEnd => E.T
+  | .tInit => E.t0
+  | _ => 0
+
+def evalFlag (E : PEnv) : Arg → Bool
+  | .flag (.frozen k) => E.frozen k
+  | .flag (.nomut k) => E.nomut k
+  | _ => false
+
+def condHolds {σ : Type} (E : PEnv) (s : PSt σ) (c : LoopCond) : Bool :=
+  match evalT E s c.lhs, evalT E s c.rhs with
+  | some a, some b =>
+    (match c.op with
+     | .lt => decide (a < b)
+     | .le => decide (a ≤ b)
+     | .gt => decide (b < a)
+     | .ge => decide (b ≤ a)
+     | .ne => a != b)
+  | _, _ => false
+
+def exec {σ : Type} (sem : PSem σ) (E : PEnv) (s : PSt σ) : StmtR → PSt σ
+  | .computeDt calls =>
+      { s with dt := (calls.map fun c => Gen.Py.computeDt E.tf (evalArg E s c.nu) (sumL (c.ms.map (evalArg E s)))
+                        (evalArg E s c.gamma) (evalArg E s c.h)).foldl optMin none }
+  | .capDt args => { s with thisDt := ((args.map (evalT E s)).foldl optMin none).getD 0 }
+  | .setNext e => { s with next := (evalT E s e).getD 0 }
+  | .eval p t => { s with vals := fun q => if q = p then E.pf p ((evalT E s t).getD 0) else s.vals q }
+  | .check _ _ => s
+  | .inject i =>
+      { s with phi := sem.inject (evalArg E s i.dt) (evalArg E s i.theta0) (i.frozen.map (evalFlag E)) (i.nomut.map (evalFlag E)) s.phi }
+  | .kernel k =>
+      if (k.guard.map (evalFlag E)).getD false then s
+      else { s with phi := sem.kernel k.ax
+                      { nu := evalArg E s k.nu, gamma := evalArg E s k.gamma, h := evalArg E s k.h,
+                        ms := k.ms.map (fun e => evalArg E s e.1), beta := k.beta.map (evalArg E s) }
+                      (evalArg E s k.dt) s.phi }
+  | .advance e => { s with cur := (evalT E s e).getD 0 }
+  | .bad _ => s
+
+def runLoop {σ : Type} (sem : PSem σ) (E : PEnv) (cond : LoopCond) (body : List StmtR) : Nat → PSt σ → PSt σ
+  | 0, s => s
+  | fuel + 1, s => if condHolds E s cond then runLoop sem E cond body fuel (body.foldl (exec sem E) s) else s
+
+/-- run a driver program from `current_t = initial_t`; `vals0` are the values the slots hold on entry (the constants of a
+    constant-parameter driver; irrelevant for the time-dependent ones, which evaluate before they read) -/
+def run {σ : Type} (sem : PSem σ) (E : PEnv) (P : ProgramR) (fuel : Nat) (vals0 : Param → Rat) (φ : σ) : σ :=
+  (runLoop sem E P.cond P.body fuel (P.prologue.foldl (exec sem E) ⟨E.t0, E.t0, none, 0, vals0, φ⟩)).phi
+
+/-- the parameter set of the model read off the slots -/
+def toStep (d : Nat) (v : Param → Rat) : StepParams :=
+  { pops := (List.range d).map fun k =>
+      { nu := v (.nu k), gamma := v (.gamma k), h := v (.h k), ms := (others d k).map fun l => v (.m k l) },
+    theta0 := v .theta0, beta := if d = 1 then some (v .beta) else none }
+
+def frList (d : Nat) (E : PEnv) : List Bool := if d = 1 then [] else (List.range d).map E.frozen
+def nmList (d : Nat) (E : PEnv) : List Bool := if d = 2 then (List.range d).map E.nomut else []
+
+/-- one full time step over an abstract kernel semantics: inject, then every non-frozen axis in order -/
+def sweepOf {σ : Type} (sem : PSem σ) (d : Nat) (fr nm : List Bool) (P : StepParams) (dt : Rat) (φ : σ) : σ :=
+  (List.range d).foldl (fun acc k =>
+      if fr.getD k false then acc
+      else match P.pops[k]? with
+        | some p => sem.kernel k (p.axis P.beta) dt acc
+        | none => acc)
+    (sem.inject dt P.theta0 fr nm φ)
+
+def semFn (grids : List (Array Rat)) (use : Bool) (eps : Nat → List Nat → Nat → Rat) : PSem (List Nat → Rat) :=
+  { inject := fun dt θ fr nm φ => injectFn grids fr nm dt θ φ,
+    kernel := fun ax P dt φ => stepAxisFn grids ax P use (eps ax) dt φ }
+
+def semND (grids : List (Array Rat)) (use : Bool) (eps : Nat → ND) : PSem ND :=
+  { inject := fun dt θ fr nm T => DadiVerif.inject grids fr nm dt θ T,
+    kernel := fun ax P dt T => stepAxis grids ax P use (eps ax) dt T }
+
+/-! #### views of a resolved program (what each property needs of it) and the constant/time-dependent dispatch -/
+
+/-- the schedule: time-step rule, clipping, next time, at which time every parameter is evaluated, which step variable the
+    injection and every kernel get, how the loop advances; anything outside the language shows as `bad` -/
+inductive SchedItem where
+  | dtRule (calls : List DtCallR) | cap (args : List TExp) | next (e : TExp) | eval (p : Param) (t : TExp)
+  | stepWith (what : String) (ax : Nat) (dt : Arg) | advance (e : TExp) | bad
+deriving DecidableEq, Repr
+
+def schedOf : StmtR → List SchedItem
+  | .computeDt c => [.dtRule c]
+  | .capDt a => [.cap a]
+  | .setNext e => [.next e]
+  | .eval p t => [.eval p t]
+  | .check _ _ => []
+  | .inject i => [.stepWith "inject" i.dim i.dt]
+  | .kernel k => [.stepWith "kernel" k.ax k.dt]
+  | .advance e => [.advance e]
+  | .bad _ => [.bad]
+
+structure SchedView where
+  fn : String
+  d : Nat
+  const : Bool
+  prologue : List SchedItem
+  cond : LoopCond
+  body : List SchedItem
+deriving DecidableEq, Repr
+
+def schedule (P : ProgramR) : SchedView :=
+  ⟨P.fn, P.d, P.const, P.prologue.flatMap schedOf, P.cond, P.body.flatMap schedOf⟩
+
+/-- flags and sizes: the injection call in full (which flag reaches which `frozen<k>`/`nomut<k>` of the callee), the guard, step
+    variable and size argument of every kernel call, and the time at which every parameter is evaluated -/
+inductive FlagItem where
+  | inject (i : InjectR) | kernel (ax : Nat) (pre : Bool) (guard : Option Arg) (dt nu : Arg) | eval (p : Param) (t : TExp) | bad
+deriving DecidableEq, Repr
+
+def flagsOf : StmtR → List FlagItem
+  | .inject i => [.inject i]
+  | .kernel k => [.kernel k.ax k.pre k.guard k.dt k.nu]
+  | .eval p t => [.eval p t]
+  | .bad _ => [.bad]
+  | _ => []
+
+structure FlagView where
+  fn : String
+  d : Nat
+  const : Bool
+  prologue : List FlagItem
+  body : List FlagItem
+deriving DecidableEq, Repr
+
+def flagView (P : ProgramR) : FlagView :=
+  ⟨P.fn, P.d, P.const, P.prologue.flatMap flagsOf, P.body.flatMap flagsOf⟩
+
+/-- `one_pop`/`two_pops`/`three_pops` hand over to the constant-parameter driver when every parameter is a scalar: `vars_to_check`
+    is every parameter, and every parameter of the callee receives the caller's argument of the same meaning (bound by NAME against
+    the callee's signature) -/
+def dispatchOk (D : Dispatch) : Bool :=
+  D.fn == driverName D.d false && D.callee == driverName D.d true
+    && sortBy argRank D.vars == (paramList D.d).map .raw
+    && match constSigs.lookup D.callee with
+       | some sig =>
+         (match bindArgs (sig.map Prod.fst) D.args with
+          | some b => b.length == sig.length && sig.all (fun e => bound b e.1 == some e.2)
+          | none => false)
+       | none => false
+
+end Prog
+
 end DadiVerif
